@@ -5,20 +5,26 @@ package verifsim
 //	C01/pipeline  every accepted seed finished exactly once, only after its whole tree is done
 //	C06/pipeline  redirects, depth, retries and hops are bounded as stated; every seed terminates
 //	C05/pipeline  no request leaves for an out-of-scope URL
-//	C08/pipeline  per-URL request counts obey dedupe + seencheck
+//	C08/pipeline  per-URL request counts obey dedupe + seencheck (sequential histories: exact)
+//	C13/pipeline  per-host request times obey the configured rate (rate limiter on)
+//	C14/pipeline  pause: the REAL stage workers take no new work while paused; resume wakes them; stop while paused returns
+//	C03/sim       a stop at any request boundary returns; nothing is requested afterwards
 //	C17/gauges    worker gauges equal live workers and are zero after stop; totals equal events
 //
-// One generated case = one full lifecycle (Start, seeds, quiescence, Stop) inside a synctest bubble.
+// One generated case = one full lifecycle (Start, seeds, control events, quiescence, Stop) inside a synctest bubble.
 
 import (
 	"fmt"
+	"net/http"
 	"os"
 	"sort"
 	"strings"
+	"sync/atomic"
 	"testing"
 	"testing/synctest"
 	"time"
 
+	"github.com/internetarchive/Zeno/internal/pkg/controler/pause"
 	"github.com/internetarchive/Zeno/internal/pkg/stats"
 	"github.com/internetarchive/Zeno/internal/pkg/veriflib"
 	"github.com/internetarchive/Zeno/pkg/models"
@@ -31,6 +37,7 @@ type simResult struct {
 	Fetches  []Fetch  `json:"fetches"`
 	Finished []string `json:"finished"`
 	Produced []string `json:"produced"`
+	Events   []string `json:"events,omitempty"`
 	Classes  []string `json:"-"`
 	NonTriv  bool     `json:"-"`
 	Elapsed  string   `json:"virtual_elapsed"`
@@ -49,15 +56,22 @@ func runCase(c Case) (res simResult) {
 	if err != nil {
 		return simResult{Viol: "harness: start: " + err.Error(), Facet: "harness"}
 	}
+	t0 := time.Now()
 	stopped := false
+	say := func(f string, a ...any) {
+		res.Events = append(res.Events, fmt.Sprintf("t=%.1fs ", time.Since(t0).Seconds())+fmt.Sprintf(f, a...))
+	}
+	// whatever the verdict, leave the bubble clean: resume (releases parked workers), stop, let timers run out
 	defer func() {
 		if !stopped {
+			if pause.IsPaused() {
+				go pause.Resume()
+			}
 			p.Stop()
-			time.Sleep(5 * time.Second)
-			synctest.Wait()
 		}
+		time.Sleep(5 * time.Second)
+		synctest.Wait()
 	}()
-	t0 := time.Now()
 	fail := func(facet, f string, a ...any) simResult {
 		res.Viol, res.Facet = fmt.Sprintf(f, a...), facet
 		res.Fetches = p.Net.Log()
@@ -70,67 +84,223 @@ func runCase(c Case) (res simResult) {
 		}
 		return m
 	}
-	// quiesce: wait until everything is durably blocked, advancing the virtual clock through retry sleeps
-	quiesce := func(want int) bool {
-		for i := 0; i < 720; i++ {
-			synctest.Wait()
-			if len(p.Finishes()) >= want {
-				synctest.Wait()
-				return true
-			}
-			time.Sleep(5 * time.Second)
-		}
-		return false
+
+	// ---- control events are triggered by the k-th request arriving at the network
+	ctlAt := map[int64]Ctl{}
+	for _, ct := range c.Ctl {
+		ctlAt[int64(ct.At)] = ct
 	}
-	inserted := []SeedPlan{}
-	insertErrs := map[string]error{}
-	if c.Sequential {
-		for _, sp := range c.Seeds {
-			_, err := p.Insert(sp.ID, sp.URL, sp.Hops)
-			if err != nil {
-				insertErrs[sp.ID] = err
-				continue
-			}
-			inserted = append(inserted, sp)
-			if !quiesce(len(inserted)) {
-				return fail("C01/pipeline", "seed %s (%s) was never reported finished: after one virtual hour every goroutine is blocked and the reactor still tracks %v", sp.ID, sp.URL, p.Tracked())
+	var reqCount atomic.Int64
+	trig := make(chan Ctl)
+	rel := make(chan struct{})
+	p.Net.Gate = func(req *http.Request) {
+		n := reqCount.Add(1)
+		if ct, ok := ctlAt[n]; ok {
+			trig <- ct
+			<-rel
+		}
+	}
+	// waits until the request log stops growing (in-flight work drains), advancing virtual time
+	drain := func() {
+		for i := 0; i < 200; i++ {
+			synctest.Wait()
+			n1 := len(p.Net.Log())
+			time.Sleep(60 * time.Second)
+			synctest.Wait()
+			if len(p.Net.Log()) == n1 {
+				return
 			}
 		}
-	} else {
-		done := make(chan struct{})
-		go func() {
-			defer close(done)
-			for _, sp := range c.Seeds {
-				if _, err := p.Insert(sp.ID, sp.URL, sp.Hops); err != nil {
-					insertErrs[sp.ID] = err
-					continue
-				}
-				inserted = append(inserted, sp)
-			}
-		}()
-		ok := false
-		for i := 0; i < 720 && !ok; i++ {
+	}
+	// waits up to a virtual hour for done
+	waitDone := func(done chan struct{}) bool {
+		for i := 0; i < 61; i++ {
 			synctest.Wait()
 			select {
 			case <-done:
-				ok = len(p.Finishes()) >= len(inserted)
+				return true
 			default:
 			}
-			if !ok {
-				time.Sleep(5 * time.Second)
-			}
+			time.Sleep(time.Minute)
 		}
-		synctest.Wait()
-		if !ok {
-			fin := finishedIDs()
-			var missing []string
-			for _, sp := range c.Seeds {
-				if fin[sp.ID] == 0 {
-					missing = append(missing, sp.ID+"("+sp.URL+")")
+		return false
+	}
+	// true when f returned within a virtual hour
+	var lastDone chan struct{}
+	mustReturn := func(f func()) bool {
+		done := make(chan struct{})
+		lastDone = done
+		go func() { f(); close(done) }()
+		return waitDone(done)
+	}
+	hadPause, stopPaused, stopMid := false, false, false
+	handle := func(ct Ctl) (simResult, bool) {
+		// while one control action is being carried out, requests that would trigger another one are let through
+		// (otherwise they would sit in the gate for ever and look like in-flight work that never drains)
+		stopDrainer := make(chan struct{})
+		defer close(stopDrainer)
+		go func() {
+			for {
+				select {
+				case skipped := <-trig:
+					say("control event at request #%d skipped (another one is in progress)", skipped.At)
+					rel <- struct{}{}
+				case <-stopDrainer:
+					return
 				}
 			}
-			return fail("C01/pipeline", "seed(s) %v were never reported finished: after one virtual hour every goroutine is blocked; the reactor still tracks %v", missing, p.Tracked())
+		}()
+		switch ct.Kind {
+		case "pause-resume", "pause-stop":
+			hadPause = true
+			say("request #%d: pause", ct.At)
+			pause.Pause("verif")
+			rel <- struct{}{}
+			drain()
+			nf, nfin := len(p.Net.Log()), len(p.Finishes())
+			time.Sleep(10 * time.Minute)
+			synctest.Wait()
+			if len(p.Net.Log()) != nf {
+				l := p.Net.Log()
+				return fail("C14/pipeline", "while the pipeline was paused (and in-flight work had drained) new work was taken: %s was requested", l[nf].URL), true
+			}
+			if len(p.Finishes()) != nfin {
+				return fail("C14/pipeline", "a seed was reported finished while the pipeline was paused and drained"), true
+			}
+			if ct.Kind == "pause-stop" {
+				stopPaused = true
+				say("stop while paused")
+				if !mustReturn(func() { p.Stop() }) {
+					// release the parked workers so that the stop (and the bubble) can end
+					go pause.Resume()
+					stopped = waitDone(lastDone)
+					return fail("C14/pipeline", "a stop issued while the pipeline was paused did not return within a virtual hour: stage workers stay parked waiting for a resume"), true
+				}
+				stopped = true
+				return res, false
+			}
+			say("resume")
+			if !mustReturn(func() { pause.Resume() }) {
+				return fail("C14/pipeline", "Resume() did not return within a virtual hour"), true
+			}
+		case "stop":
+			stopMid = true
+			say("request #%d: stop", ct.At)
+			go func() { rel <- struct{}{} }()
+			if !mustReturn(func() { p.Stop() }) {
+				stopped = true
+				return fail("C03/sim", "a stop issued while request #%d was in flight did not return within a virtual hour", ct.At), true
+			}
+			stopped = true
+			return res, false
 		}
+		return res, false
+	}
+
+	// ---- insert the seeds (concurrently with the crawl, or one at a time)
+	inserted := []SeedPlan{}
+	insertErrs := map[string]error{}
+	insDone := make(chan struct{})
+	insMu := make(chan struct{}, 1)
+	nextSeq := make(chan struct{}, 1) // sequential mode: permission to insert the next seed
+	go func() {
+		defer close(insDone)
+		for _, sp := range c.Seeds {
+			if c.Sequential {
+				if _, ok := <-nextSeq; !ok {
+					return
+				}
+			}
+			_, err := p.Insert(sp.ID, sp.URL, sp.Hops)
+			insMu <- struct{}{}
+			if err != nil {
+				insertErrs[sp.ID] = err
+			} else {
+				inserted = append(inserted, sp)
+			}
+			<-insMu
+		}
+	}()
+	nIns := func() int {
+		insMu <- struct{}{}
+		defer func() { <-insMu }()
+		return len(inserted) + len(insertErrs)
+	}
+	allInserted := func() bool {
+		select {
+		case <-insDone:
+			return true
+		default:
+			return false
+		}
+	}
+	if c.Sequential {
+		nextSeq <- struct{}{}
+	}
+	released := 1
+	finishedOK := false
+	for i := 0; i < 800 && !stopped; i++ {
+		synctest.Wait()
+		select {
+		case ct := <-trig:
+			if r, bad := handle(ct); bad {
+				return r
+			}
+			continue
+		default:
+		}
+		if c.Sequential && !allInserted() && len(p.Finishes()) >= released && nIns() >= released && released < len(c.Seeds) {
+			released++
+			nextSeq <- struct{}{}
+			continue
+		}
+		if allInserted() && len(p.Finishes()) >= len(inserted) {
+			finishedOK = true
+			break
+		}
+		time.Sleep(5 * time.Second)
+	}
+	synctest.Wait()
+	if stopped {
+		// the inserter may still be parked on a token or on the sequential gate: a frozen/stopped reactor refuses it
+		close(nextSeq)
+		synctest.Wait()
+		nf := len(p.Net.Log())
+		time.Sleep(10 * time.Minute)
+		synctest.Wait()
+		if len(p.Net.Log()) != nf {
+			return fail("C03/sim", "%s was requested after the stop had returned", p.Net.Log()[nf].URL)
+		}
+		if !allInserted() {
+			return fail("C03/sim", "a source is still blocked inserting a seed ten virtual minutes after the stop returned")
+		}
+		m := stats.GetMapTUI()
+		for _, k := range []string{"Preprocessor routines", "Archiver routines", "Postprocessor routines"} {
+			if v, _ := m[k].(uint64); v != 0 {
+				return fail("C17/gauges", "%s gauge is %v after stop", k, m[k])
+			}
+		}
+		res.Fetches = p.Net.Log()
+		res.Elapsed = time.Since(t0).String()
+		res.Classes = []string{"ctl:stop"}
+		if stopPaused {
+			res.Classes = append(res.Classes, "ctl:stop-while-paused")
+		}
+		if stopMid {
+			res.Classes = append(res.Classes, "ctl:stop-mid-fetch")
+		}
+		res.NonTriv = len(res.Fetches) > 0
+		return res
+	}
+	if !finishedOK {
+		fin := finishedIDs()
+		var missing []string
+		for _, sp := range c.Seeds {
+			if fin[sp.ID] == 0 {
+				missing = append(missing, sp.ID+"("+sp.URL+")")
+			}
+		}
+		return fail("C01/pipeline", "seed(s) %v were never reported finished: after more than one virtual hour every goroutine is blocked; the reactor still tracks %v", missing, p.Tracked())
 	}
 	for id, err := range insertErrs {
 		return fail("harness", "harness: insert %s: %v", id, err)
@@ -198,36 +368,19 @@ func runCase(c Case) (res simResult) {
 		got[f.URL]++
 	}
 	cut := map[string]bool{}
-	explained := map[string]bool{}
+	exp := map[string][2]int{}
+	forbidden := map[string]string{}
 	for _, sp := range inserted {
 		e := Reference(c.Site, c.Settings, sp, seen)
 		for k := range e.Cut {
 			cut[k] = true
 		}
 		for u, why := range e.Forbidden {
-			if got[u] > 0 {
-				return fail("C05/pipeline", "a request was sent for %s which is %s (seed %s)", u, why, sp.ID)
-			}
+			forbidden[u] = why + " (seed " + sp.ID + ")"
 		}
 		for u, mm := range e.Attempts {
-			explained[u] = true
-			if !c.Sequential && HostOf(u) != sp.Host {
-				continue // shared URLs are judged in the sequential facet
-			}
-			if got[u] < mm[0] {
-				facet := "C01/pipeline"
-				if got[u] > 0 {
-					facet = "C06/pipeline"
-				}
-				return fail(facet, "%s (tree of seed %s) was requested %d time(s), expected %d: it is part of the seed's tree and the seed was reported finished", u, sp.ID, got[u], mm[0])
-			}
-			if got[u] > mm[1] {
-				facet := "C06/pipeline"
-				if r := c.Site[u]; r == nil || (r.FailFirst == 0 && !(r.Kind == "status" && retried(r.Status))) {
-					facet = "C08/pipeline"
-				}
-				return fail(facet, "%s (tree of seed %s) was requested %d time(s), at most %d expected (max-retry %d, max-redirect %d)", u, sp.ID, got[u], mm[1], c.Settings.MaxRetry, c.Settings.MaxRedirect)
-			}
+			x := exp[u]
+			exp[u] = [2]int{x[0] + mm[0], x[1] + mm[1]}
 		}
 		// outlinks
 		for _, o := range e.Outlinks {
@@ -235,29 +388,61 @@ func runCase(c Case) (res simResult) {
 			for _, it := range prod {
 				if it.GetURL().Raw == o.URL && it.GetSeedVia() == o.Via {
 					if it.GetURL().GetHops() != o.Hops {
-						return fail("C06/pipeline", "outlink %s of %s was queued with hops %d, expected parent hops + 1 = %d", o.URL, o.Via, it.GetURL().GetHops(), o.Hops)
+						return fail("C06/pipeline", "outlink %s of %s was queued with hops %d, expected %d", o.URL, o.Via, it.GetURL().GetHops(), o.Hops)
 					}
 					found = true
 				}
 			}
 			if !found {
-				return fail("C06/pipeline", "outlink %s of page %s (hops %d < max-hops %d) was not handed to the queue", o.URL, o.Via, o.Hops-1, c.Settings.MaxHops)
+				return fail("C06/pipeline", "outlink %s of page %s (page hops %d, max-hops %d) was not handed to the queue", o.URL, o.Via, e.Pages[o.Via], c.Settings.MaxHops)
 			}
 		}
 		for _, it := range prod {
 			if h, ok := e.Pages[it.GetSeedVia()]; ok {
-				if h >= c.Settings.MaxHops {
+				dc := MatchesDomainsCrawl(it.GetURL().Raw, c.Settings)
+				if h >= c.Settings.MaxHops && !dc {
 					return fail("C06/pipeline", "outlink %s was queued from page %s which already has %d hops (max-hops %d)", it.GetURL().Raw, it.GetSeedVia(), h, c.Settings.MaxHops)
 				}
-				if it.GetURL().GetHops() != h+1 {
-					return fail("C06/pipeline", "outlink %s of %s carries hops %d, expected %d", it.GetURL().Raw, it.GetSeedVia(), it.GetURL().GetHops(), h+1)
+				want := h + 1
+				if dc {
+					want = 0
+				}
+				if it.GetURL().GetHops() != want {
+					return fail("C06/pipeline", "outlink %s of %s carries hops %d, expected %d", it.GetURL().Raw, it.GetSeedVia(), it.GetURL().GetHops(), want)
 				}
 			}
 		}
 	}
+	for u, why := range forbidden {
+		if got[u] > 0 {
+			return fail("C05/pipeline", "a request was sent for %s which is %s", u, why)
+		}
+	}
+	for u, mm := range exp {
+		lo, hi := mm[0], mm[1]
+		if HostOf(u) == SharedHost && !c.Sequential && c.Settings.Seencheck {
+			// concurrent seeds may both check before either records: between one visit and one per referencing seed
+			a, _ := fetchOutcome(c.Site[u], c.Settings)
+			lo, hi = a, a*len(inserted)
+		}
+		if got[u] < lo {
+			facet := "C01/pipeline"
+			if got[u] > 0 {
+				facet = "C06/pipeline"
+			}
+			return fail(facet, "%s was requested %d time(s), expected %d: it is part of a finished seed's tree", u, got[u], lo)
+		}
+		if got[u] > hi {
+			facet := "C06/pipeline"
+			if r := c.Site[u]; r == nil || (r.FailFirst == 0 && !(r.Kind == "status" && retried(r.Status))) {
+				facet = "C08/pipeline"
+			}
+			return fail(facet, "%s was requested %d time(s), at most %d expected (max-retry %d, max-redirect %d, seencheck %v)", u, got[u], hi, c.Settings.MaxRetry, c.Settings.MaxRedirect, c.Settings.Seencheck)
+		}
+	}
 	// anything requested that no seed's tree explains is out-of-tree work (unbounded work / scope)
 	for u, n := range got {
-		if !explained[u] {
+		if _, ok := exp[u]; !ok {
 			facet := "C06/pipeline"
 			if !acceptableURL(u) || excluded(u, c.Settings) {
 				facet = "C05/pipeline"
@@ -265,10 +450,36 @@ func runCase(c Case) (res simResult) {
 			return fail(facet, "%s was requested %d time(s) although no seed's tree (within redirect, depth, scope and seen rules) contains it", u, n)
 		}
 	}
-	// scope: whatever was requested must be in scope
 	for _, f := range log {
 		if !acceptableURL(f.URL) || excluded(f.URL, c.Settings) {
 			return fail("C05/pipeline", "a request was sent for out-of-scope URL %s", f.URL)
+		}
+	}
+	// ---- C13: per-host politeness on the wire (virtual timestamps). The limiter forgets a host when more hosts are
+	// active than it has buckets (workers x max-concurrent-assets), so the bound is only claimed below that.
+	hostsSeen := map[string]bool{}
+	for _, f := range log {
+		hostsSeen[f.Host] = true
+	}
+	if c.Settings.RateLimit && len(hostsSeen) <= c.Settings.Workers*c.Settings.MaxAssets {
+		byHost := map[string][]int64{}
+		for _, f := range log {
+			// retries of one URL do not wait for a token again (documented in archive()): only first attempts count
+			if f.Attempt == 1 {
+				byHost[f.Host] = append(byHost[f.Host], f.AtMs)
+			}
+		}
+		for h, ts := range byHost {
+			sort.Slice(ts, func(a, b int) bool { return ts[a] < ts[b] })
+			for i := 0; i < len(ts); i++ {
+				for j := i + 1; j < len(ts); j++ {
+					n := float64(j - i + 1)
+					T := float64(ts[j]-ts[i]) / 1000
+					if n > c.Settings.RateCapacity+T*c.Settings.RateRefill+1e-6 {
+						return fail("C13/pipeline", "host %s received %d first-attempt requests within %.3fs: more than capacity %.0f + T x rate %.2f", h, j-i+1, T, c.Settings.RateCapacity, c.Settings.RateRefill)
+					}
+				}
+			}
 		}
 	}
 	// ---- C17: totals and gauges
@@ -276,7 +487,6 @@ func runCase(c Case) (res simResult) {
 	if v, _ := m["Finished seeds"].(uint64); int(v-base) != len(inserted) {
 		return fail("C17/gauges", "stats report %d more finished seeds, %d seeds finished", v-base, len(inserted))
 	}
-	// "URLs crawled" counts one per node handed to the archiver's fetch routine (retries are not counted)
 	nodes := map[string]bool{}
 	for _, f := range log {
 		nodes[f.URL] = true
@@ -284,16 +494,16 @@ func runCase(c Case) (res simResult) {
 	if v, _ := m["Total URL crawled"].(uint64); int(v-baseURLs) < len(nodes) {
 		return fail("C17/gauges", "stats report %d URLs crawled, the network saw %d distinct URLs requested", v-baseURLs, len(nodes))
 	}
-	if v, _ := m["Preprocessor routines"].(uint64); int(v) != c.Settings.Workers {
-		return fail("C17/gauges", "preprocessor gauge %v with %d live workers", m["Preprocessor routines"], c.Settings.Workers)
+	for _, k := range []string{"Preprocessor routines", "Archiver routines", "Postprocessor routines"} {
+		if v, _ := m[k].(uint64); int(v) != c.Settings.Workers {
+			return fail("C17/gauges", "%s gauge is %v with %d live workers", k, m[k], c.Settings.Workers)
+		}
 	}
-	if v, _ := m["Archiver routines"].(uint64); int(v) != c.Settings.Workers {
-		return fail("C17/gauges", "archiver gauge %v with %d live workers", m["Archiver routines"], c.Settings.Workers)
+	if !mustReturn(func() { p.Stop() }) {
+		go pause.Resume()
+		stopped = true
+		return fail("C03/sim", "stop of an idle pipeline did not return within a virtual hour")
 	}
-	if v, _ := m["Postprocessor routines"].(uint64); int(v) != c.Settings.Workers {
-		return fail("C17/gauges", "postprocessor gauge %v with %d live workers", m["Postprocessor routines"], c.Settings.Workers)
-	}
-	p.Stop()
 	stopped = true
 	time.Sleep(5 * time.Second)
 	synctest.Wait()
@@ -311,7 +521,21 @@ func runCase(c Case) (res simResult) {
 	if len(c.Seeds) > c.Settings.Workers {
 		res.Classes = append(res.Classes, "token-backpressure")
 	}
-	multi := false
+	if hadPause {
+		res.Classes = append(res.Classes, "ctl:pause-resume")
+	}
+	if c.Sequential {
+		res.Classes = append(res.Classes, "mode:sequential")
+	}
+	if c.Settings.RateLimit {
+		res.Classes = append(res.Classes, "ratelimit:on")
+	}
+	if !c.Settings.Seencheck {
+		res.Classes = append(res.Classes, "seencheck:off")
+	}
+	if len(c.Settings.DomainsCrawl) > 0 {
+		res.Classes = append(res.Classes, "domainscrawl:on")
+	}
 	for _, sp := range inserted {
 		n := 0
 		for _, f := range log {
@@ -320,10 +544,9 @@ func runCase(c Case) (res simResult) {
 			}
 		}
 		if n >= 2 {
-			multi = true
+			res.NonTriv = true
 		}
 	}
-	res.NonTriv = multi
 	return res
 }
 
@@ -338,8 +561,7 @@ func propSim(t veriflib.TB, outer *testing.T, c Case, feats map[string]bool) {
 		if res.Facet == "harness" {
 			t.Fatalf("%s", res.Viol)
 		}
-		pid := res.Facet[:3]
-		veriflib.Fail(t, pid, res.Facet, c, res, "%s", res.Viol)
+		veriflib.Fail(t, res.Facet[:3], res.Facet, c, res, "%s", res.Viol)
 	}
 	cl := res.Classes
 	for k := range feats {
@@ -347,10 +569,9 @@ func propSim(t veriflib.TB, outer *testing.T, c Case, feats map[string]bool) {
 	}
 	key := veriflib.JSON(c)
 	sample := func() any {
-		return map[string]any{"settings": c.Settings, "seeds": c.Seeds, "requests": len(res.Fetches), "finished": res.Finished, "virtual_elapsed": res.Elapsed, "resources": len(c.Site)}
+		return map[string]any{"settings": c.Settings, "seeds": c.Seeds, "ctl": c.Ctl, "requests": len(res.Fetches), "finished": res.Finished,
+			"virtual_elapsed": res.Elapsed, "resources": len(c.Site), "events": res.Events}
 	}
-	veriflib.Record("C01/pipeline", key, res.NonTriv, cl, sample)
-	// the same run is evidence for the facets of the other properties: count it there when the case exercised them
 	has := func(p string) bool {
 		for _, c := range cl {
 			if strings.HasPrefix(c, p) {
@@ -359,27 +580,53 @@ func propSim(t veriflib.TB, outer *testing.T, c Case, feats map[string]bool) {
 		}
 		return false
 	}
-	veriflib.Record("C06/pipeline", key, has("cut:max-redirect") || has("cut:depth-limit") || has("cut:retried") || has("cut:max-hops") || has("cut:failed-for-good"), cl, sample)
+	if has("ctl:stop") {
+		veriflib.Record("C03/sim", key, res.NonTriv, cl, sample)
+		if has("ctl:stop-while-paused") {
+			veriflib.Record("C14/pipeline", key, true, cl, sample)
+		}
+		return
+	}
+	veriflib.Record("C01/pipeline", key, res.NonTriv, cl, sample)
+	// the same run is evidence for the facets of the other properties: count it there when the case exercised them
+	veriflib.Record("C06/pipeline", key, has("cut:max-redirect") || has("cut:depth-limit") || has("cut:retried") || has("cut:max-hops") || has("cut:failed-for-good") || has("domainscrawl:on"), cl, sample)
 	veriflib.Record("C05/pipeline", key, has("cut:excluded") || has("cut:unacceptable-url"), cl, sample)
 	veriflib.Record("C08/pipeline", key, has("cut:duplicate-in-tree") || has("cut:seen-skip") || has("cut:seen-promotion"), cl, sample)
-	veriflib.Record("C17/gauges", key, res.NonTriv, nil, nil)
+	veriflib.Record("C17/gauges", key, res.NonTriv, nil, sample)
+	if has("ctl:pause-resume") {
+		veriflib.Record("C14/pipeline", key, res.NonTriv, cl, sample)
+	}
+	if has("ratelimit:on") {
+		veriflib.Record("C13/pipeline", key, res.NonTriv, cl, sample)
+	}
 }
 
 func genCase(t *rapid.T) (Case, map[string]bool) {
 	c := Case{Settings: GenSettings(t), Site: Site{}}
 	n := rapid.IntRange(1, 2*c.Settings.Workers+1).Draw(t, "nseeds")
 	feats := map[string]bool{}
+	c.Sequential = rapid.IntRange(0, 3).Draw(t, "sequential") == 0
 	for i := 0; i < n; i++ {
-		sp, f := GenSeed(t, i+1, c.Site, c.Settings.MaxHops)
+		sp, f := GenSeed(t, i+1, c.Site, c.Settings)
 		c.Seeds = append(c.Seeds, sp)
 		for k := range f {
 			feats[k] = true
 		}
 	}
+	// control events
+	switch rapid.IntRange(0, 5).Draw(t, "ctl") {
+	case 0:
+		c.Ctl = []Ctl{{At: rapid.IntRange(1, 8).Draw(t, "at"), Kind: "pause-resume"}}
+	case 1:
+		c.Ctl = []Ctl{{At: rapid.IntRange(1, 8).Draw(t, "at"), Kind: []string{"stop", "pause-stop"}[rapid.IntRange(0, 1).Draw(t, "stopkind")]}}
+	case 2:
+		a := rapid.IntRange(1, 6).Draw(t, "at")
+		c.Ctl = []Ctl{{At: a, Kind: "pause-resume"}, {At: a + rapid.IntRange(1, 6).Draw(t, "at2"), Kind: "pause-resume"}}
+	}
 	return c, feats
 }
 
-var simFacets = []string{"C01/pipeline", "C06/pipeline", "C05/pipeline", "C08/pipeline", "C17/gauges"}
+var simFacets = []string{"C01/pipeline", "C06/pipeline", "C05/pipeline", "C08/pipeline", "C13/pipeline", "C14/pipeline", "C03/sim", "C17/gauges"}
 
 func TestVerif_Sim_Pipeline(t *testing.T) {
 	defer veriflib.Flush()
@@ -397,4 +644,13 @@ func TestVerif_Sim_Pipeline(t *testing.T) {
 		c, feats := genCase(rt)
 		veriflib.Guard("C01", "C01/pipeline", c, func() { propSim(rt, t, c, feats) })
 	})
+}
+
+// Strict reproduction: stop while paused.
+func TestVerifKF_Sim_StopWhilePaused(t *testing.T) {
+	c := Case{Settings: Settings{Workers: 2, MaxAssets: 1, MaxRedirect: 1, MaxRetry: 0, MaxHops: 0, Seencheck: true}, Site: Site{
+		"http://s1.example.com/p1":     {Kind: "html", Assets: []string{"http://s1.example.com/a2.png"}},
+		"http://s1.example.com/a2.png": {Kind: "bin"},
+	}, Seeds: []SeedPlan{{ID: "seed-1", URL: "http://s1.example.com/p1", Host: "s1.example.com"}}, Ctl: []Ctl{{At: 1, Kind: "pause-stop"}}}
+	propSim(t, t, c, nil)
 }
